@@ -248,6 +248,7 @@ class Outcome:
         self.exhaustive = False
         self.level = "model_checking"
         self.open = load_findings(prop)
+        self.no_evidence = False    # set by replay(): re-running a stored case must not overwrite the evidence
 
     def add_tlc(self, res):
         self.states += res.distinct
@@ -283,7 +284,7 @@ class Outcome:
         if self.violations:
             d = os.path.join(REPLAYS, self.prop)
             os.makedirs(d, exist_ok=True)
-            for i, v in enumerate(self.violations[:20]):
+            for i, v in enumerate(self.violations[:8]):
                 p = os.path.join(d, "%s-%d-%d.json" % (self.tier, seed(), i))
                 with open(p, "w") as f:
                     json.dump(v, f, indent=1, sort_keys=True)
@@ -319,8 +320,9 @@ class Outcome:
             "wall_s": round(wall, 2),
             "violations": len(self.violations),
         }
-        with open(os.path.join(EVIDENCE, self.prop + ".json"), "w") as f:
-            json.dump(ev, f, indent=1, sort_keys=True)
+        if not self.no_evidence:
+            with open(os.path.join(EVIDENCE, self.prop + ".json"), "w") as f:
+                json.dump(ev, f, indent=1, sort_keys=True)
         log("%s %s: %d evaluations, %d states, %d known-finding hits, %d violations, %.1fs" %
             (self.prop, self.tier, self.evaluations, self.states, sum(self.known.values()),
              len(self.violations), wall))
